@@ -36,6 +36,7 @@ void Simulate8008::reset()
 {
   memset(reg, 0, sizeof(reg));
   memset(&flags, 0, sizeof(flags));
+  memset(stack, 0, sizeof(stack));
 
   pc = org;
   sp = 0;
@@ -125,6 +126,9 @@ int Simulate8008::run(int max_cycles, int step)
   int n;
 
   printf("Running... Press Ctl-C to break.\n");
+
+  // A HLT (or Ctl-C) of an earlier run must not stop this one.
+  stop_running = false;
 
   while (stop_running == false)
   {
